@@ -68,11 +68,8 @@ def canonName (t : Tables) (cls : Option Str) : Str :=
   | some c => nameOfClass t c
   | none => nameOfClass t t.internalError
 
-/-- the reported text survives: the error formats to it, possibly without a leading `<word>: ` (the way frappy
-itself prefixes the Python class name) and without one final newline -/
-def TextKept (text fmt : Str) : Prop :=
-  fmt = text ∨ text = fmt ++ ['\n'] ∨ text = text.takeWhile isWordChar ++ ':' :: ' ' :: fmt
-    ∨ text = text.takeWhile isWordChar ++ ':' :: ' ' :: fmt ++ ['\n']
+/-- the reported text survives: the error formats to it (a single final newline may be lost) -/
+def TextKept (text fmt : Str) : Prop := fmt = text ∨ text = fmt ++ ['\n']
 
 instance (text fmt : Str) : Decidable (TextKept text fmt) := by unfold TextKept; infer_instance
 
@@ -253,6 +250,10 @@ def judgeFrom (t : Tables) (mp : Maps) (imp : Str → Str → J → Option V) (b
 def judge (t : Tables) (mp : Maps) (imp : Str → Str → J → Option V) (behave : Call V → Outcome)
     (steps : List (Ev J × List (Call V) × Cache V)) : Option Nat :=
   judgeFrom t mp imp behave 0 [] [] steps
+
+/-- a caller of `readParameter` waking up after its error reply was processed is not a message: it must leave the
+cache alone and call nobody (the receive loop has already done the update for the reply) -/
+def wakeOkB (c : Cache V) (block : List (Call V)) (c' : Cache V) : Bool := sameCacheB c c' && block.isEmpty
 
 end monitors
 
